@@ -28,6 +28,7 @@ import GraphiqModel.Proofs.HilbertDimExpect
 import GraphiqModel.Proofs.HilbertDimOverlap
 import GraphiqModel.Proofs.HilbertDimReduced
 import GraphiqModel.Proofs.HilbertDimBorn
+import GraphiqModel.Proofs.HilbertDimMeasXY
 namespace Graphiq.C07
 open Graphiq Graphiq.PRow Graphiq.Tab
 
@@ -1598,5 +1599,34 @@ example : dProbOps [.meas 0 true, .meas 1 true] (dstate ghz3) = (1 / 2 : ℂ) ^ 
       decide +kernel
     rw [hrun] at this; cases this
   | ok t' => exact born_rule_history _ hwf ghz3 t' ghz3_valid ghz3_stabReal hrun
+
+/-! ### 7.12 FINDING: `measure_x` / `measure_y` leave the tableau in the rotated basis
+
+  `clifford.py` also exports `measure_x`, `measure_y`, `measure_z`.  They are not part of `Model/Tableau.lean` and the
+  correspondence harness does not run them; `measXCoded` / `measYCoded` (`Proofs/HilbertDimMeasXY.lean`) transcribe the Python
+  (basis change applied to the caller's tableau in place, `z_measurement_gate`, outcome returned, nothing undone); the behaviour
+  stated below was reproduced on `/repo` by hand (`handoff/deep-c07h.md`, finding F1; F2: `Stabilizer.apply_x_measurement`
+  calls a function `x_measurement_gate` that does not exist). -/
+
+/-- **what `measure_x` as coded does**: the reported outcome `s` is the X-measurement outcome, but the tableau left behind is
+    `H · (Π_X ρ Π_X / tr(Π_X ρ)) · H†` — the post-measurement state conjugated by a Hadamard that is never undone (the qubit
+    is left in `|0⟩/|1⟩` instead of `|+⟩/|−⟩`) -/
+theorem measure_x_as_coded_leaves_a_hadamard (t : Tab) (q : Nat) (o : Bool) (hq : q < t.n) (hv : t.Valid)
+    (hr : t.StabReal) :
+    rho t.n (STab.ofTab (measXCoded t q o).1)
+      = gateMat t.n (.H q) * postMeasX t.n q (measXCoded t q o).2 (rho t.n (STab.ofTab t)) * (gateMat t.n (.H q))ᴴ ∧
+    (measXCoded t q o).2
+      = measOutcome t.n q o (gateMat t.n (.H q) * rho t.n (STab.ofTab t) * (gateMat t.n (.H q))ᴴ) ∧
+    (measXCoded t q o).1 = ((t.hGate q).zMeasure q o).1 :=
+  ⟨(measXCoded_density t q o hq hv hr).1, (measXCoded_density t q o hq hv hr).2, rfl⟩
+
+/-- **refutation witness** (kernel-checked): on `|++⟩` the X-measurement of qubit 0 is deterministic (outcome 0), so the
+    state must not change; after `measure_x` as coded the tableau has the generator `Z₀` instead of `X₀` and its density
+    matrix differs from the input's -/
+theorem measure_x_refuted (o : Bool) :
+    ((Tab.plus 2).hGate 0).pivot 0 = none ∧ (measXCoded (Tab.plus 2) 0 o).2 = false ∧
+    Grp (measXCoded (Tab.plus 2) 0 o).1 (Zq 0) ∧ Grp (Tab.plus 2) (Xq 0) ∧
+    rho 2 (STab.ofTab (measXCoded (Tab.plus 2) 0 o).1) ≠ rho 2 (STab.ofTab (Tab.plus 2)) :=
+  measX_plus_witness o
 
 end Graphiq.C07
